@@ -146,6 +146,26 @@ func c09Corpus(r *vf.Run) []parseInput {
 		add("error-position", sfx+` a="1"`)
 		add("error-position", "a=\"multi\nline\nvalue\" "+sfx)
 	}
+	// every short field, and words that other languages reserve, as a column and as a group-by entry
+	for i, id := range gen.ShortIdentifiers(r.Thorough()) {
+		switch i % 3 {
+		case 0:
+			add("identifier", id+`="x"`)
+		case 1:
+			add("identifier", `a="1";`+id)
+		default:
+			add("identifier", `^ `+id+` = $1 & b = "2" ; `+id+`, a`)
+		}
+	}
+	for _, id := range gen.Keywordish {
+		for _, w := range []string{id, strings.ToUpper(id), strings.ToUpper(id[:1]) + id[1:]} {
+			add("identifier", w+`="x"`)
+			add("identifier", `a="1" ; `+w)
+			add("identifier", `( `+w+` = "1" | `+w+` = $2 ) & ^ `+w+` = "3" ; a, `+w)
+			add("identifier", `a = "1" `+w+` b = "2"`) // a word between two comparisons is not an operator
+		}
+	}
+	add("identifier", strings.Repeat("a", 300)+`_9="1" ; `+strings.Repeat("Z_", 200))
 	add("long-chain", strings.Repeat(`a="1" & `, 20000)+`b="2"`)
 	for _, n := range []int{63, 64, 65, 127, 128, 129, 255, 256, 257, 1023, 1024, 1025} {
 		add("chain-length", strings.Repeat(`a="1" & `, n-1)+`b="2"`)
@@ -159,7 +179,7 @@ func c09Corpus(r *vf.Run) []parseInput {
 func runC09(r *vf.Run) {
 	r.Rule("one evaluation = one input string given to ParseQuery under recover and compared with an independent byte-level reference recogniser for the documented grammar " +
 		"(accept/reject, tree, group-by list, exactly one of query/error); after every batch the goroutine profile must show no goroutine inside the parser package; " +
-		"inputs: grammar-derived sentences with random blanks, 18 kinds of token/byte mutations, random bytes, placeholder numbers, nesting up to the stated depth; " +
+		"inputs: grammar-derived sentences with random blanks, 20 kinds of token/byte mutations, random bytes, placeholder numbers, nesting up to the stated depth, every field of 1-3 characters and keyword-like words as column and group-by entry; " +
 		"distinct_nontrivial = distinct input strings that are non-empty")
 	r.Assume("nesting depth <= 200000 (deeper: known finding stack-overflow-deep-nesting)", "lexical rules as fixed by the lexer: blanks SP/TAB/CR/LF, fields [A-Za-z][0-9A-Za-z_]*")
 	corpus := c09Corpus(r)
